@@ -271,6 +271,7 @@ ItemAt(g) ==
   ELSE IF g <= O11 THEN CliSlotAt(g - O10)
   ELSE IF g <= O12 THEN ThreadsAt(g - O11)
   ELSE FilesAt(g - O12)
+Histories == IF "VERIF_TIER" \in DOMAIN IOEnv /\ IOEnv.VERIF_TIER = "thorough" THEN 300 ELSE 40
 VARIABLE n
 INSTANCE GenBase
 =============================================================================
